@@ -851,8 +851,10 @@ class SpecArray(object):
               directional bins as the original spectra.
 
         """
+        # Directions are wrapped within regrid_spec, wrapping them here could turn a
+        # repeated 0 / 360 bin into duplicate labels and break the bin width
         dirs = self.dir.values + angle
-        dsout = self._obj.assign_coords({attrs.DIRNAME: dirs % 360})
+        dsout = self._obj.assign_coords({attrs.DIRNAME: dirs})
         return regrid_spec(dsout, dir=self.dir)
 
     def smooth(self, freq_window=3, dir_window=3):
